@@ -1,6 +1,7 @@
 package main
 
 import (
+	"bytes"
 	"context"
 	"encoding/json"
 	"fmt"
@@ -151,7 +152,7 @@ func init() {
 			Rule: "family 0: limit records (every zero/non-zero pattern of the 7 fields; thorough: every field over {0, small, >2^32}; CPUHard below/equal/above CPU) → PrepareRLimit → real launch → getrlimit in the program; " +
 				"family 1: the same through container.Execve as two-run histories on one container (limits A then limits B) and through the ptrace and namespace runners; " +
 				"family 2: programs that exceed RLIMIT_CPU, RLIMIT_FSIZE, the runner's time bound and memory bound under each runner → verdict and measurements; " +
-				"family 3: output collector, cap N × volume × writer chunk size. non-trivial: at least one limit configured / volume>0; distinct = (family, configuration, observation)",
+				"family 3: output collector, cap N × volume × writer chunk size × sink (the package's buffer, or a caller's writer that fails at once / after 10 / after 4096 bytes). non-trivial: at least one limit configured / volume>0; distinct = (family, configuration, observation)",
 			Bound:       map[string]any{"namespace_runner_scope": "its program is a pid-namespace init: SIGXCPU at the soft limit and SIGXFSZ are discarded by the kernel; TLE there comes from the hard-limit SIGKILL and no OLE is expected"},
 			Assumptions: []string{"verdict clauses are conditional on the kernel actually terminating the program"},
 			SplitDepth:  3,
@@ -437,6 +438,24 @@ func c08verdicts(x *mc.X) {
 	}
 }
 
+// c08failingSink accepts limit bytes and fails every write from then on.
+type c08failingSink struct {
+	limit int
+	got   bytes.Buffer
+}
+
+func (f *c08failingSink) Write(p []byte) (int, error) {
+	room := f.limit - f.got.Len()
+	if room <= 0 {
+		return 0, fmt.Errorf("sink: no space left")
+	}
+	if len(p) > room {
+		f.got.Write(p[:room])
+		return room, fmt.Errorf("sink: no space left")
+	}
+	return f.got.Write(p)
+}
+
 func c08collector(x *mc.X, full bool) {
 	caps := []int64{0, 1, 2, 4095, 4096, 65536}
 	n := caps[x.Choose(len(caps), "cap")]
@@ -447,7 +466,11 @@ func c08collector(x *mc.X, full bool) {
 	v := vols[x.Choose(len(vols), "volume")]
 	chunks := []int64{1, 4096, 1 << 20}
 	ch := chunks[x.Choose(len(chunks), "chunk")]
-	x.Note("collector", fmt.Sprintf("cap=%d volume=%d chunk=%d", n, v, ch))
+	// where the collected bytes go: the package's own buffer, or (NewPipe) a caller's writer that starts to fail after it
+	// accepted k bytes — a full disk, a closed connection; the writing program must not notice that either
+	sinks := []string{"buffer", "sink-fails-at-once", "sink-fails-after-10-bytes", "sink-fails-after-4096-bytes"}
+	sink := sinks[x.Choose(len(sinks), "sink")]
+	x.Note("collector", fmt.Sprintf("cap=%d volume=%d chunk=%d sink=%s", n, v, ch, sink))
 	if v < 0 || (ch == 1 && v > 200000) {
 		x.Outcome("skipped")
 		return
@@ -455,7 +478,17 @@ func c08collector(x *mc.X, full bool) {
 	if x.Dry() {
 		return
 	}
-	buf, err := pipe.NewBuffer(n)
+	var buf *pipe.Buffer
+	var err error
+	if sink == "buffer" {
+		buf, err = pipe.NewBuffer(n)
+	} else {
+		fs := &c08failingSink{limit: map[string]int{"sink-fails-at-once": 0, "sink-fails-after-10-bytes": 10, "sink-fails-after-4096-bytes": 4096}[sink]}
+		var done <-chan struct{}
+		var w *os.File
+		done, w, err = pipe.NewPipe(fs, n+1)
+		buf = &pipe.Buffer{W: w, Done: done, Max: n, Buffer: &fs.got}
+	}
 	if err != nil {
 		x.Failf("C08/harness", "%v", err)
 		return
@@ -486,11 +519,11 @@ func c08collector(x *mc.X, full bool) {
 		want = n + 1
 	}
 	if v > 0 {
-		x.Distinct(fmt.Sprint("c", n, v, ch, got, ws))
+		x.Distinct(fmt.Sprint("c", n, v, ch, sink, got, ws))
 	}
 	x.Outcome(fmt.Sprintf("collector:retained%+d", got-n))
 	if !ws.Exited() || ws.ExitStatus() != 0 {
-		x.Failf("C08/collector/writer-broken", "cap %d volume %d chunk %d: writer ended with status %#x (91 short write, 92 write error, signal = SIGPIPE)", n, v, ch, uint32(ws))
+		x.Failf("C08/collector/writer-broken", "cap %d volume %d chunk %d sink %s: writer ended with status %#x (91 short write, 92 write error, signal = SIGPIPE)", n, v, ch, sink, uint32(ws))
 	}
 	if got > n+1 {
 		x.Failf("C08/collector/retains-too-much", "cap %d volume %d chunk %d: collector retained %d bytes (> N+1)", n, v, ch, got)
